@@ -220,14 +220,24 @@ nni_msgq_aio_put(nni_msgq *mq, nni_aio *aio)
 {
 	nni_mtx_lock(&mq->mq_lock);
 
-	// If this is an instantaneous poll operation, and the queue has
-	// no room, nobody is waiting to receive, then report NNG_ETIMEDOUT.
-	if (!nni_aio_start(aio, nni_msgq_cancel, mq)) {
-		nni_mtx_unlock(&mq->mq_lock);
-		return;
+	if (nni_list_empty(&mq->mq_aio_putq) &&
+	    ((!nni_list_empty(&mq->mq_aio_getq)) ||
+	        (mq->mq_len < mq->mq_cap))) {
+		// We can complete right away (nobody is ahead of us, and
+		// there is a reader or room), so we do not wait: an
+		// instantaneous poll operation (zero timeout) must succeed.
+		// NB: The aio is completed in there, do not touch it after.
+		nni_aio_list_append(&mq->mq_aio_putq, aio);
+		nni_msgq_run_putq(mq);
+	} else {
+		// If this is an instantaneous poll operation, then this
+		// reports NNG_ETIMEDOUT.
+		if (!nni_aio_start(aio, nni_msgq_cancel, mq)) {
+			nni_mtx_unlock(&mq->mq_lock);
+			return;
+		}
+		nni_aio_list_append(&mq->mq_aio_putq, aio);
 	}
-	nni_aio_list_append(&mq->mq_aio_putq, aio);
-	nni_msgq_run_putq(mq);
 	nni_msgq_run_notify(mq);
 
 	nni_mtx_unlock(&mq->mq_lock);
@@ -237,13 +247,19 @@ void
 nni_msgq_aio_get(nni_msgq *mq, nni_aio *aio)
 {
 	nni_mtx_lock(&mq->mq_lock);
-	if (!nni_aio_start(aio, nni_msgq_cancel, mq)) {
-		nni_mtx_unlock(&mq->mq_lock);
-		return;
+	if (nni_list_empty(&mq->mq_aio_getq) &&
+	    ((mq->mq_len != 0) || (!nni_list_empty(&mq->mq_aio_putq)))) {
+		// As for put: a message (or a writer) is there and nobody is
+		// ahead of us, so this completes now, in there.
+		nni_aio_list_append(&mq->mq_aio_getq, aio);
+		nni_msgq_run_getq(mq);
+	} else {
+		if (!nni_aio_start(aio, nni_msgq_cancel, mq)) {
+			nni_mtx_unlock(&mq->mq_lock);
+			return;
+		}
+		nni_aio_list_append(&mq->mq_aio_getq, aio);
 	}
-
-	nni_aio_list_append(&mq->mq_aio_getq, aio);
-	nni_msgq_run_getq(mq);
 	nni_msgq_run_notify(mq);
 
 	nni_mtx_unlock(&mq->mq_lock);
